@@ -53,7 +53,7 @@ def parse_unit(u):
 
 
 STRUCT_IF = ["vasp", "abinit", "qe", "wien2k", "elk", "siesta", "crystal", "dftbp", "turbomole", "aims", "castep", "fleur", "abacus", "lammps", "pwmat"]
-CELLS = ["cubic-1", "NaCl-grouped", "interleaved-tri", "outside", "NaClNaO-tri"]
+CELLS = ["cubic-1", "NaCl-grouped", "interleaved-tri", "outside", "NaClNaO-tri", "twelve"]
 
 
 def plan(tier, seed):
@@ -201,6 +201,9 @@ def make_cell(name):
         return PhonopyAtoms(symbols=["Na", "Cl", "Na", "Cl"], cell=tri, scaled_positions=[[.03, .01, .02], [.43, .57, .61], [.52, .11, .47], [.81, .29, .93]])
     if name == "outside":
         return PhonopyAtoms(symbols=["Na", "Cl", "Cl"], cell=tri, scaled_positions=[[1.03, -.21, .02], [.43, 2.57, -.39], [-.52, .11, 1.47]])
+    if name == "twelve":
+        g = np.random.default_rng(4)
+        return PhonopyAtoms(symbols=["Na"] * 6 + ["Cl"] * 6, cell=tri, scaled_positions=g.uniform(0, 1, (12, 3)).round(6))
     if name == "NaClNaO-tri":
         return PhonopyAtoms(symbols=["Na", "Cl", "Na", "O"], cell=tri, scaled_positions=[[.03, .01, .02], [.43, .57, .61], [.52, .11, .47], [.81, .29, .33]])
     raise ValueError(name)
@@ -275,7 +278,8 @@ def roundtrip(itf, cell, td, tag):
     elif itf == "fleur":
         from phonopy.structure.atoms import symbol_map
 
-        info = ([symbol_map[s] for s in cell.symbols], ["&end"])
+        # one species id per input atom (Fleur's "Z.label" form), title line first in the rest lines, as read_fleur returns
+        info = (["%d.%d" % (symbol_map[s], 1) for s in cell.symbols], ["verif fleur", "", "&end /"])
     buf = io.StringIO()
     with contextlib.redirect_stdout(buf):
         CALC.write_crystal_structure(fn, cell, interface_mode=itf, optional_structure_info=info)
@@ -283,12 +287,50 @@ def roundtrip(itf, cell, td, tag):
         body = open(fn).read()
         with open(fn, "w") as w:
             w.write(HEAD_QE % (len(cell), len(syms)) + body)
-    if itf in ("crystal", "turbomole", "fleur", "wien2k", "siesta"):
-        # written files are fragments / need calculator-specific context that the reader expects from the calculator itself
-        if itf == "crystal":
-            return None, "CRYSTAL: phonopy writes .d12/.ext input but reads .o output"
-        if itf == "turbomole":
-            return None, "TURBOMOLE: writer creates a directory layout read through 'control'; not a single-file round trip"
+    if itf == "siesta":
+        # the written file is the structure part of an fdf input; the species table belongs to the user's part
+        from phonopy.structure.atoms import symbol_map
+
+        body = open(fn).read()
+        head = "NumberOfSpecies %d\n%%block ChemicalSpeciesLabel\n" % len(syms) + "".join(" %d %d %s\n" % (i + 1, symbol_map[s_], s_) for i, s_ in enumerate(syms)) + "%endblock ChemicalSpeciesLabel\n"
+        with open(fn, "w") as w:
+            w.write(head + body)
+    if itf == "crystal":
+        # phonopy writes CRYSTAL input (.d12/.ext) but reads CRYSTAL output: independent minimal reader of the .ext geometry
+        from phonopy.structure.atoms import PhonopyAtoms
+
+        L = [l.split() for l in open(fn + ".ext").read().splitlines()]
+        lat = np.array(L[1:4], float)
+        nsym = int(L[4][0])
+        k = 5 + 4 * nsym
+        n = int(L[k][0])
+        nums = [int(x[0]) % 100 for x in L[k + 1:k + 1 + n]]
+        cart = np.array([x[1:4] for x in L[k + 1:k + 1 + n]], float)
+        return PhonopyAtoms(numbers=nums, cell=lat, positions=cart), None
+    if itf == "turbomole":
+        os.chdir(fn)  # the reader opens the coord file named in control relative to the working directory
+        fn = "control"
+    if itf == "fleur":
+        # The written file is an inpgen input without the '! a1' / '! num atoms' markers that read_fleur keys on, so the
+        # writer is judged with an independent reader of that layout ...
+        from phonopy.structure.atoms import PhonopyAtoms
+
+        L = open(fn).read().splitlines()
+        lat = np.array([l.split()[:3] for l in L[1:4]], float) * float(L[4].split()[0]) * np.array(L[5].split()[:3], float)[None, :]
+        n = int(L[7].split()[0])
+        rows = [l.split() for l in L[8:8 + n]]
+        wcell = PhonopyAtoms(numbers=[int(float(r[0])) for r in rows], cell=lat, scaled_positions=np.array([r[1:4] for r in rows], float))
+        # ... and the reader with the same crystal written by the harness in the documented inpgen layout (markers included)
+        txt = "verif fleur\n\n" + "".join("%.12f %.12f %.12f ! a%d\n" % (tuple(v) + (i + 1,)) for i, v in enumerate(np.asarray(cell.cell)))
+        txt += "1.0 ! aa\n1.0 1.0 1.0 ! scale\n\n%d ! num atoms\n" % len(cell)
+        from phonopy.structure.atoms import symbol_map as _sm
+
+        txt += "".join("%d.1 %.12f %.12f %.12f\n" % ((_sm[s_],) + tuple(p_)) for s_, p_ in zip(cell.symbols, cell.scaled_positions)) + "\n&end /\n"
+        with open(fn + ".inpgen", "w") as w:
+            w.write(txt)
+        with contextlib.redirect_stdout(buf):
+            rcell, _ = CALC.read_crystal_structure(fn + ".inpgen", interface_mode="fleur")
+        return (wcell, rcell), None
     try:
         with contextlib.redirect_stdout(buf):
             got, _ = CALC.read_crystal_structure(fn, interface_mode=itf)
@@ -333,6 +375,12 @@ def run_struct(case, seed):
         return dict(ok=True, skipped=skip)
     if got is None:
         return dict(ok=True, skipped="%s: reader returned no cell for the written file" % itf)
+    if isinstance(got, tuple):  # (written file read independently, harness-written file read by the interface)
+        badr = same_crystal(cell, got[1], dist, 2e-6) if got[1] is not None else "reader returned nothing"
+        if badr:
+            return dict(ok=False, sig="C17/structure/%s-reader/%s" % (itf, "ten-or-more-atoms" if len(cell) >= 10 else case["cell"]), nontrivial=nontriv,
+                        msg="%s %s %s: file in the documented input layout is read back wrongly: %s" % (itf, case["cell"], case["what"], badr))
+        got = got[0]
     bad = same_crystal(cell, got, dist, 2e-6)
     if bad:
         feat = "interleaved-species" if case["cell"] in ("interleaved-tri", "NaClNaO-tri") else case["cell"]
